@@ -99,6 +99,11 @@ def _kkt_nl(pb, flt, F, builtin='ldl'):
     fac = getattr(misc, 'kkt_' + builtin)(Gm, pb['dims'], Am, mnl)
 
     def kk(x, z, W):
+        # the scaling handed to the KKT solver must satisfy its invariants also after a restore-and-retry
+        inv = R.w_invariants(cvx.W_to_ref(W), pb['dims'], mnl)
+        bad = inv.get('bad') or ', '.join('%s=%.2g' % (k_, v_) for k_, v_ in inv.items() if k_ != 'bad' and not v_ <= 1e-8)
+        if bad and not getattr(flt, 'wviol', None):
+            flt.wviol = 'kktsolver call #%d: %s' % (flt.nf, bad)
         flt.factor()
         flt.kkt_calls = getattr(flt, 'kkt_calls', 0) + 1
         f, Df, H = F(x, z)
@@ -132,9 +137,9 @@ def base_list(tier, seed):
     if tier == 'thorough':
         tags += ['quad3.1', 'acent1.0.25', 'entropy3', 'lse3.cp', 'ballo3.1', 'expc3', 'logdom.0.9.53674e-07', 'acent2.9.53674e-07']
     for t in tags:
-        for cone in (None, {'l': 1, 'q': [2], 's': [2]}):
+        for cone in (None, {'l': 1, 'q': [2], 's': [2]}, {'l': 0, 'q': [], 's': [2, 2]}):
             for rf in (1, 0):
-                if cone and rf == 0 and tier == 'quick':
+                if cone and cone['s'] == [2, 2] and (rf == 0 or tier == 'quick' and not t.startswith('ball')):
                     continue
                 out.append({'kind': 'nl', 'tag': t, 'cone': cone, 'refinement': rf, 'seed': seed})
     return out
@@ -185,11 +190,12 @@ def _setup(b):
     if b['tag'].startswith('ball'):
         cfg['opts']['maxiters'] = 14     # the overshoot and the restore happen within the first 12 iterations
 
-    def runner(flt, refuse=None):
+    def runner(flt, refuse=None, none_style=0):
         rec = {'calls': []}
         cfg2 = dict(cfg)
         if refuse is not None:
             cfg2['refuse'] = refuse
+            cfg2['none_style'] = none_style     # both documented forms of 'outside the domain': None and (None, None)
         F = nlsolve.make_F(pb, cfg2, rec)
         kk = _kkt_nl(pb, flt, F)
         # nlsolve.call builds its own F; pass ours through by monkeypatching make_F for this call
@@ -290,6 +296,10 @@ def run(case):
         n_ev += 1
         nv = len(O.viol)
         lab = _judge(O, b, inst, cfg, res, flt, rec, 'kkt')
+        if getattr(flt, 'wviol', None):
+            O.bad('W-invariants-broken-after-fault@%s' % (inst['entry'] if b['kind'] == 'nl' else b['kind']),
+                  'after the injected failure %r the solver handed a scaling to the KKT solver that violates the documented invariants: %s'
+                  % (flt.hit[:1], flt.wviol))
         if flt.hit:
             nontriv += 1
         outcomes[lab] = outcomes.get(lab, 0) + 1
@@ -322,7 +332,7 @@ def run(case):
                         return True
                     state.setdefault('accepted', set()).add(key)
                     return False
-                res, rec = runner(flt, refuse)
+                res, rec = runner(flt, refuse, none_style=(i + r) % 2)
                 n_ev += 1
                 nv = len(O.viol)
                 if state['refused']:
